@@ -475,7 +475,10 @@ def replay(path):
             # the verdict is that of the recorded test itself (cargo's exit status also reflects doc-test targets)
             verdict = re.search(r'test \S*%s \.\.\. (ok|FAILED)' % re.escape(item['playback_test']), r.stdout)
             failed = bool(verdict and verdict.group(1) == 'FAILED') or (verdict is None and r.returncode != 0 and 'panicked at' in (r.stdout + r.stderr))
-            if verdict is None and not failed and r.returncode != 0:
+            if 'det vals vec' in (r.stdout + r.stderr) or 'concrete_playback' in (r.stdout + r.stderr) and 'any_raw_internal' in (r.stdout + r.stderr) and 'Expected' in (r.stdout + r.stderr):
+                print('replay: the recorded input no longer fits the harness (the harness draws its symbolic inputs differently now); not a verdict')
+                rc = max(rc, 2)
+            elif verdict is None and not failed and r.returncode != 0:
                 print('replay: could not run the recorded test (build problem?)')
                 print(r.stderr[-1500:])
                 rc = max(rc, 2)
